@@ -130,6 +130,26 @@ theorem leaf_inv_matrix :
   · unfold matrixEmpty
     rw [if_neg (by omega)]
 
+/-- **`insert_row` / `insert_column` with an element type whose `Clone` panics** on any call
+    (all safe code): the matrix left behind satisfies the invariant and, if the call panicked, is
+    exactly what it was (fix L-13: the clones are made before the first insertion). -/
+theorem leaf_inv_matrix_clone_panic (m : Matrix α) (hm : m.Inv) (i : Nat) (v : α) (p : Option Nat) :
+    ((insertRowCloning m i v p).state.Inv ∧
+        ((insertRowCloning m i v p).panic ≠ none → (insertRowCloning m i v p).state = m)) ∧
+      ((insertColumnCloning m i v p).state.Inv ∧
+        ((insertColumnCloning m i v p).panic ≠ none → (insertColumnCloning m i v p).state = m)) :=
+  ⟨insertRowCloning_spec m hm i v p, insertColumnCloning_spec m hm i v p⟩
+
+/-- The unrepaired `insert_row` violates it: on a 2×2 matrix a `Clone` that panics on its second
+    call leaves 5 stored elements for a matrix that still claims 2×2 (defect L-13; kernel
+    evaluation of the model of the old code). -/
+theorem insertRowCloneOld_violates :
+    let m : Matrix Nat := ⟨[1, 2, 3, 4], 2, 2⟩
+    m.Inv ∧ ¬ (insertRowCloningOld m 0 9 (some 1)).state.Inv ∧
+      (insertRowCloningOld m 0 9 (some 1)).state = ⟨[9, 1, 2, 3, 4], 2, 2⟩ ∧
+      (insertRowCloning m 0 9 (some 0)).state = m := by
+  decide
+
 example : (Matrix.fromFlatRowMajor 2 3 (List.range 6)).isSome = true ∧
     Matrix.fromFlatRowMajor (2 ^ 63 + 1) 2 [1, 2] = none ∧
     matrixEmpty (2 ^ 63) 2 7 = none := by decide
